@@ -676,3 +676,18 @@ def rand_spec_high_ratio(rng):
              dict(src="n0", dst="n2", blocking=False, skip=False, jitter="LATEST", window=rng.choice([1, 4]), comm=dict(kind="det", loc=0.004, scale=0.0)),
              dict(src="n2", dst="n0", blocking=False, skip=True, jitter="LATEST", window=1, comm=dict(kind="det", loc=0.004, scale=0.0))]
     return dict(nodes=nodes, conns=conns, supervisor="n2", seed=rng.randrange(1 << 30))
+
+
+def spec_tie_advance(rng):
+    """X -> Y (twice the rate, advance=True, zero delays, blocking on X) -> Z: Y emits two outputs with *identical* timestamps
+    that reach Z exactly at one of Z's step starts — the situation in which `push_expected_nonblocking` must wait for a
+    message strictly in the future before it counts."""
+    r = rng.choice([4, 8])
+    d = 1.0 / (2 * r)
+    nodes = [dict(name="n0", rate=r, comp=dict(kind="det", loc=0.0, scale=0.0), advance=False, scheduling="FREQUENCY"),
+             dict(name="n1", rate=2 * r, comp=dict(kind="det", loc=0.0, scale=0.0), advance=True, scheduling="FREQUENCY"),
+             dict(name="n2", rate=r, comp=dict(kind="det", loc=0.0, scale=0.0), advance=False, scheduling="FREQUENCY")]
+    conns = [dict(src="n0", dst="n1", blocking=True, skip=False, jitter="LATEST", window=1, comm=dict(kind="det", loc=d, scale=0.0)),
+             dict(src="n1", dst="n2", blocking=False, skip=False, jitter=rng.choice(["LATEST", "BUFFER"]), window=rng.choice([1, 2, 3]), comm=dict(kind="det", loc=d, scale=0.0)),
+             dict(src="n2", dst="n0", blocking=False, skip=True, jitter="LATEST", window=1, comm=dict(kind="det", loc=d, scale=0.0))]
+    return dict(nodes=nodes, conns=conns, supervisor="n2", seed=rng.randrange(1 << 30))
